@@ -364,6 +364,14 @@ class Spec:
             k = min(int(a[0]), n); del xs[:k]; return "-", ev
         if op == "flush":
             return "-", ev
+        if op == "extend_ref":
+            m, v0 = int(a[0]), int(a[1])
+            src = [(0, (v0 + i) % 256) for i in range(m)]
+            if self.cap:
+                self.xs = (xs + src)[-self.cap:]
+            return "-", ev
+        if op == "default":
+            return f"0 0 true {self.cap}", ev
         if op == "boxed":
             return ("BOXED", "0"), ev
         if op == "junk":
